@@ -2,7 +2,7 @@
 import itertools
 from .family import Family
 
-PROPS_MODULES = ["C16", "LtsSteps"]
+PROPS_MODULES = ["C16", "LtsSteps", "ErrClass"]
 RULE = ("family `shutdown`: a real VhostUserDaemon (own backend, 1..3 workers, exit events on/off) serves one end of a unix "
         "connection, an independent raw peer the other; a schedule controller registered through verif_hooks::set_controller "
         "parks the daemon thread at the hold points of lib.rs (before handle_request, after it returned Ok, before the final "
@@ -147,6 +147,12 @@ class ShutdownFamily(Family):
         for reqs, ev in [(["gf", "gf"], ["wa", "pr", "pc"]), (["gf", "gf"], ["wc", "pr", "wc", "pc"]), (["sf", "gf"], ["w14", "w5", "pc"]),
                          (["gf"], ["wa", "pc"]), (["gf"], ["pr", "wa", "pc"])]:
             L.append(line(ev, reqs, wk=next(wk_cycle), cls="cut:multi"))
+        # C'. no shutdown request, and the reply is written to a peer that has already gone (EPIPE, deterministic: the daemon thread is
+        #     held inside the callback while the peer closes): SocketBroken, which wait() maps to Ok
+        for reqs, arm, ev in [(["gf"], ["cb"], ["wa", "pc", "rcb"]), (["gf", "gf"], ["cb"], ["wa", "pc", "rcb"]),
+                              (["sf", "gf"], ["cb"], ["wa", "rcb", "acb", "pc", "rcb"]), (["gf"], ["cb", "post"], ["wa", "pc", "rcb", "rpost"])]:
+            L.append(line(ev, reqs, arm, wk=next(wk_cycle), cls="epipe"))
+        L.append(line(["wa", "pc", "rcb"], ["gf"], ["cb"], m="serve", wk=next(wk_cycle), cls="epipe"))
         # D. request errors without a shutdown request
         for reqs, ev in [(["bad"], ["wa"]), (["svn"], ["wa"]), (["sf", "bad"], ["wa"]), (["gf", "svn"], ["wa", "pr"]),
                          (["gf", "svn"], ["wa"]), (["sf", "svn", "gf"], ["wa"]), (["bad"], ["wa", "pc"])]:
